@@ -1,10 +1,10 @@
 #!/bin/bash
-# tools/import_seed.sh <Cxx> <seedN> <name> <test-filter>
+# tools/import_seed.sh <Cxx> <seedN> <name> <test-filter> [worktree-dir]
 # Copies a sub-agent's seeded change from /tmp/seed-<Cxx>/OUT into /verif/seeded/<name>/ and confirms it
 # (suite passes with the change, demo fails with it, demo passes without it) in a scratch worktree.
 set -e
 ID="$1"; N="$2"; NAME="$3"; FILTER="$4"
-SRC=/tmp/seed-$ID/OUT; DST=/verif/seeded/$NAME
+SRC="${5:-/tmp/seed-$ID}/OUT"; DST=/verif/seeded/$NAME
 mkdir -p $DST
 cp $SRC/$N.patch.diff $DST/patch.diff; cp $SRC/$N.demo.diff $DST/demo.diff; cp $SRC/$N.desc.md $DST/desc.md
 OUT=$(/verif/tools/confirm_seeded.sh $DST/patch.diff $DST/demo.diff "$FILTER" 2>&1)
